@@ -267,7 +267,7 @@ pub fn line_of(rng: &mut Rng, frame: &[u8], deco: bool) -> Vec<u8> {
 
 pub const JUNK_KINDS: &[&str] = &[
     "empty", "blank", "text", "hex13", "hex15", "hex27", "hex29", "hex41", "hex-odd", "high-bytes", "nul",
-    "lone-cr", "overlong", "utf8-multibyte", "truncated-frame", "semicolon-only", "split-utf8",
+    "lone-cr", "overlong", "utf8-multibyte", "truncated-frame", "semicolon-only", "split-utf8", "pow2-len", "pow2-len",
 ];
 
 /// A line (with newline) that is unambiguously *not* a frame: its hex-digit
@@ -293,6 +293,16 @@ pub fn junk(rng: &mut Rng, kind: &str) -> Vec<u8> {
         "semicolon-only" => b"*;".to_vec(),
         // first bytes of a multi-byte sequence, cut
         "split-utf8" => vec![b'*', 0xE2, 0x9C, b';'],
+        // lengths on and around powers of two (line buffers, caps, chunk sizes), with and without CR
+        "pow2-len" => {
+            let k = rng.range(5, 17) as u32;
+            let n = ((1i64 << k) + rng.range(-3, 3)).max(1) as usize;
+            let c = *rng.pick(&[b'x', b'G', b' ', b'-']);
+            let mut v = vec![c; n];
+            if rng.chance(0.3) { let l = v.len(); v[l - 1] = b'\r'; }
+            if rng.chance(0.3) { for b in v.iter_mut().take(13) { *b = b'A'; } }
+            v
+        }
         _ => b"???".to_vec(),
     };
     // never let the digit count hit a frame length by accident
